@@ -78,6 +78,12 @@ fn interp(steps: &[Value], level: u64, in_co: bool) {
                     rec(json!({"ev": "probe", "level": level, "segs": LAST_HOOK_SEGS.with(Cell::get)}));
                 }
             }
+            "deep" => {
+                // 14 levels of 10 KiB frames: more than one 64 KiB segment, wherever the program stands
+                rec(json!({"ev": "mdeep_b", "level": level}));
+                let r = deep(14);
+                rec(json!({"ev": "mdeep_e", "level": level, "r": r}));
+            }
             "ret" => {
                 if level == 0 {
                     continue;
